@@ -246,6 +246,8 @@ def _alpha_max_group_lasso(X, y, grp_indices, grp_ptr, weights):
     n_groups = len(grp_ptr) - 1
     alpha_max = 0.
     for g in range(n_groups):
+        if weights[g] == 0:  # unpenalized group: excluded from the maximum
+            continue
         grp_g_indices = grp_indices[grp_ptr[g]: grp_ptr[g+1]]
         alpha_max = max(
             alpha_max,
